@@ -22,7 +22,7 @@ from sim.seams import (ErrstateRaise, LineInterrupter, SimInterrupt, SolveSeam, 
 ID = "C14"
 PANEL_PER_MODE = 3
 PER_RUN_CAP = 900
-WALL_CAP = {"quick": 240, "thorough": 3000}
+WALL_CAP = {"quick": 400, "thorough": 6600}
 MINIMISE_S = 60.0
 MINIMISE_TOTAL_S = 240.0
 MAX_REPORTS = 4
@@ -1124,6 +1124,13 @@ def execute(plan):
             excused = (not r_h.ok) and any(
                 (r_h.value == a) or (a == "*Warning" and r_h.value.endswith("Warning"))
                 for a in allowed)
+            if kind in ("warnings_as_errors", "errstate_raise") and not excused:
+                # numpy / scipy / cvxpy take other internal paths under a changed warning filter
+                # or error state (a FloatingPointError caught inside a library turns a borderline
+                # hull test around), so the outcome of the call that ran under the altered
+                # setting is not judged; every later answer is
+                bump("faulted_query_outcome_not_judged:" + kind)
+                excused = True
             if excused:
                 # the faulted query may fail; everything after it is checked as usual
                 check_pool(f"aborted query {q['q']}")
